@@ -65,6 +65,8 @@ enum T {
     Rec(Vec<RE>),
     /// do-block: statements (expressions) and the returned expression
     Do(Vec<T>, Box<T>),
+    /// assignment `name = value`
+    Asg(&'static str, Box<T>),
 }
 
 /// one record entry
@@ -108,7 +110,7 @@ fn lam_arg(a: &(u8, &'static str)) -> String {
 /// as possible
 fn ends_open(t: &T) -> bool {
     match t {
-        T::Lam(..) | T::Cond(..) => true,
+        T::Lam(..) | T::Cond(..) | T::Asg(..) => true,
         T::Bin(_, _, r) => ends_open(r),
         T::Neg(x) | T::Not(x) => ends_open(x),
         _ => false,
@@ -146,6 +148,7 @@ fn full(t: &T) -> String {
         T::Str(s) => str_lit(s),
         T::Rec(es) => rec_text(es, &full),
         T::Do(ss, r) => do_text(ss, r, &|x| format!("({})", full(x))),
+        T::Asg(n, v) => format!("{} = ({})", n, full(v)),
     }
 }
 
@@ -172,7 +175,7 @@ fn strength(t: &T) -> u8 {
     match t {
         T::Leaf(_) | T::ListN(_) | T::Str(_) | T::Rec(_) | T::Do(..) => 10,
         // a lambda as an operand of a prefix / postfix operator is always parenthesised here
-        T::Lam(..) | T::Cond(..) => 0,
+        T::Lam(..) | T::Cond(..) | T::Asg(..) => 0,
         T::Bin(op, _, _) => doc_level(op).0,
         T::Neg(_) | T::Not(_) => 7,
         T::Fact(_) => 8,
@@ -219,6 +222,8 @@ fn minimal(t: &T) -> String {
         T::Str(s) => str_lit(s),
         T::Rec(es) => rec_text(es, &minimal),
         T::Do(ss, r) => do_text(ss, r, &minimal),
+        // the value is an `expression`: no parentheses needed
+        T::Asg(n, v) => format!("{} = {}", n, minimal(v)),
     }
 }
 
@@ -705,14 +710,13 @@ fn in_fragment(p: pest::iterators::Pair<Rule>) -> Result<(), &'static str> {
         Rule::conditional | Rule::lambda | Rule::lambda_expression | Rule::argument_list | Rule::required_arg | Rule::optional_arg | Rule::rest_arg
         | Rule::call_list | Rule::access | Rule::dot_access | Rule::spread_expression | Rule::list | Rule::list_item
         | Rule::record | Rule::record_item | Rule::record_pair | Rule::record_key_static | Rule::record_key_dynamic | Rule::record_shorthand
-        | Rule::do_block | Rule::do_statement | Rule::return_statement => {
+        | Rule::do_block | Rule::do_statement | Rule::return_statement | Rule::assignment => {
             for c in p.into_inner() {
                 in_fragment(c)?;
             }
             Ok(())
         }
         Rule::spread_operator => Ok(()),
-        Rule::assignment => Err("assignment"),
         _ => Err("other-rule"),
     }
 }
@@ -775,7 +779,11 @@ fn gen_ft(rng: &mut Rng, depth: usize) -> T {
         }
         return T::Leaf(PEG_ATOMS[rng.below(PEG_ATOMS.len())]);
     }
-    match rng.below(17) {
+    match rng.below(18) {
+        17 => {
+            const TARGETS: &[&str] = &["x", "y", "k", "_a", "n0", "sqrt", "iffy", "nota", "e", "trueish", "do_it", "F"];
+            T::Asg(TARGETS[rng.below(TARGETS.len())], Box::new(gen_ft(rng, depth - 1)))
+        }
         16 => {
             let n = [0, 0, 1, 1, 2, 3][rng.below(6)];
             T::Do((0..n).map(|_| gen_ft(rng, depth - 1)).collect(), Box::new(gen_ft(rng, depth - 1)))
@@ -1062,6 +1070,8 @@ fn laid(t: &T, rng: &mut Rng, extra: u64) -> String {
             out.push('}');
             out
         }
+        // `assignment` is non-atomic: blanks (no line break) around `=`
+        T::Asg(n, v) => format!("{}{}={}{}", n, LAY_WS0[rng.below(LAY_WS0.len())], LAY_WS0[rng.below(LAY_WS0.len())], laid(v, rng, extra)),
         _ => unreachable!(),
     };
     s
@@ -1218,6 +1228,16 @@ fn check_expr_peg(ctx: &Ctx, model: &mut Model, rep: &mut Report, rng: &mut Rng)
         "don't", "done", "do_ { return 1 }", "dodo", "do{", "return 1", "return", "a; b", "do { return a; b }", "do { return a\n b }", "do { return a b }", "do { return return 1 }",
         "do { returnx\n return 1 }", "do { return_1 = 2\n return 1 }", "do { \"return\"\n return 1 }", "do { \"a;b\"; return 1 }", "do { [a; b]; return 1 }", "do { f(a; b); return 1 }",
         "do { a\n\t return 1 }", "do { a \n return 1 }", "do { a\n return 1\n\n}", "do { a\n return 1 \t }", "do {\n\n  a\n\n\n  b\n\n  return 1\n\n}", "do { a\n; return 1 }", "do { a;\n; return 1 }",
+        // assignment as a term (non-atomic: blanks around `=`; the value is an `expression`)
+        "a = 1", "a=1", "a =1", "a= 1", "a  =  1", "a\t=\t1", "a\n= 1", "a =\n1", "a = // c\n 1", "a // c\n = 1", "a == 1", "a = = 1", "a === 1", "a = == 1",
+        "a = b = 1", "a = b == 1", "a == b = 1", "a = b => 1", "a => b = 1", "a = (b) => b", "(a) = 1", "(a = 1)", "( a = 1 )", "a = (1)", "a = 1 + 2", "a = 1\n+ 2",
+        "a = b via c", "a = b and c", "1 + a = 2", "1 + (a = 2)", "(a = 2) + 1", "a = 2 + 1", "-a = 1", "!a = 1", "not a = 1", "a! = 1", "a != 1", "a ! = 1", "a[0] = 1",
+        "a.b = 1", "a() = 1", "f(a = 1)", "f(a = 1, b = 2)", "f(a = 1,\n)", "f(...a = 1)", "[a = 1]", "[a = 1, b]", "{a = 1}", "{a: b = 1}", "{[a = 1]: 2}", "a[b = 1]",
+        "x => a = 1", "x => a = x via f", "(x => a = 1) via f", "x = y => y", "x = (y) => y via f", "if a = 1 then b else c", "if a then b = 1 else c", "if a then b else c = 1",
+        "a = if b then c else d", "a = do { return 1 }", "do { a = 1; return a }", "do {\n  a = 1\n  b = a + 1\n  return b\n}", "do { a = 1\n -b\n return 1 }", "do { return a = 1 }",
+        "true = 1", "null = 1", "if = 1", "not = 1", "do = 1", "return = 1", "output = 1", "via = 1", "into = 1", "where = 1", "sqrt = 1", "e = 1", "_ = 1", "a1 = 1", "1 = 1", "\"a\" = 1",
+        "trueish = 1", "iffy = 1", "a = true", "a = \"s\"", "a = [1, 2]", "a = {b: 1}", "a = {}", "a = -1", "a = -b", "a = b!", "a = b.c", "a = b(c)", "a = ", "a =", "= 1", "a = 1 = 2",
+        "a = b\n= 1", "a = (b = 1)", "a = (b = 1) + 1", "a = 1 // c", "a =1+2", "a = b ?? c", "a ?= 1", "a += 1", "a := 1", "a = 1;", "a = 1, b = 2", "a = 1 b = 2", "(a = 1)(b)", "(a = 1)!", "(a = 1).b",
         "\"a\" == 'a'", "\"1\" + 1", "1 + \"1\"", "1\"a\"", "a'b'", "true\"a\"", "\"a\"true", "\"a\"1", "\"a\"_", "\"a\" // c", "\"a\" // \"c\nb",
     ];
     for t in PROBES {
@@ -1299,6 +1319,13 @@ fn check_expr_peg(ctx: &Ctx, model: &mut Model, rep: &mut Report, rng: &mut Rng)
                 format!("do {{ x{}// c\n{}return 1 }}", a, b),
                 format!("x => do {{{}x{}\n return x }}", a, b),
                 format!("do {{ x{}via{}y\n return 1 }}", a, b),
+                format!("x{}={}y", a, b),
+                format!("x ={}={}y", a, b),
+                format!("x{}= y{}+ z", a, b),
+                format!("f(x{}={}y)", a, b),
+                format!("z + x{}={}y", a, b),
+                format!("do {{ x{}={}1\n return x }}", a, b),
+                format!("x{}=>{}y = 1", a, b),
             ] {
                 peg_compare(model, rep, &t, "postfix-layout");
             }
